@@ -228,8 +228,8 @@ type vC18Ev struct {
 
 func (g *vC18Gen) read() vC18Ev {
 	ev := vC18Ev{kind: "read"}
-	for _, d := range g.r.Perm(7)[:g.r.Range(1, 4)] {
-		ev.ds = append(ev.ds, uint64(d)) // 0 (the empty digest) .. 6 (never configured)
+	for _, d := range g.r.Perm(7) {
+		ev.ds = append(ev.ds, uint64(d)) // every digest of the pool: 0 (the empty digest) .. 6 (never configured)
 	}
 	return ev
 }
@@ -250,6 +250,66 @@ func (g *vC18Gen) pollFail() vC18Ev {
 	return vC18Ev{kind: "poll", ans: vC18Answer{err: true}}
 }
 
+func vC18CopyVC(vc VersionedConfig) VersionedConfig {
+	out := vc
+	out.StaticConfig.Nodes = append([]Node{}, vc.StaticConfig.Nodes...)
+	out.DynamicConfig.SourceChains = make([]SourceChain, len(vc.DynamicConfig.SourceChains))
+	for i, c := range vc.DynamicConfig.SourceChains {
+		if c.ObserverNodesBitmap != nil {
+			c.ObserverNodesBitmap = new(big.Int).Set(c.ObserverNodesBitmap)
+		}
+		out.DynamicConfig.SourceChains[i] = c
+	}
+	return out
+}
+
+// an answer that differs from prev in exactly one aspect (of the active config, or only the candidate digest)
+func (g *vC18Gen) variant(prev GetAllConfigsResponse, aspect string) GetAllConfigsResponse {
+	r := g.r
+	out := GetAllConfigsResponse{ActiveConfig: vC18CopyVC(prev.ActiveConfig), CandidateConfig: vC18CopyVC(prev.CandidateConfig)}
+	a := &out.ActiveConfig
+	n := len(a.StaticConfig.Nodes)
+	cs := a.DynamicConfig.SourceChains
+	switch aspect {
+	case "bitmap": // observer rotation on one chain: same chains, same F, same nodes
+		if len(cs) > 0 && n > 0 {
+			k := r.Intn(len(cs))
+			j := r.Intn(n)
+			if cs[k].ObserverNodesBitmap.BitLen() <= n { // flip one observer bit (an out-of-range bitmap is left as it is)
+				cs[k].ObserverNodesBitmap.SetBit(cs[k].ObserverNodesBitmap, j, 1-cs[k].ObserverNodesBitmap.Bit(j))
+			}
+		}
+	case "f":
+		if len(cs) > 0 {
+			cs[r.Intn(len(cs))].F += uint64(r.Range(1, 3))
+		}
+	case "chainset":
+		if len(cs) > 1 && r.Bool() {
+			a.DynamicConfig.SourceChains = cs[1:]
+		} else {
+			a.DynamicConfig.SourceChains = append(cs, SourceChain{ChainSelector: cciptypes.ChainSelector(r.Range(6, 9)), F: 1, ObserverNodesBitmap: g.bitmap(n, 0)})
+		}
+	case "order":
+		perm := r.Perm(len(cs))
+		sh := make([]SourceChain, len(cs))
+		for i, j := range perm {
+			sh[i] = cs[j]
+		}
+		a.DynamicConfig.SourceChains = sh
+	case "node": // one node's peer id / key replaced
+		if n > 0 {
+			j := r.Intn(n)
+			a.StaticConfig.Nodes[j] = Node{PeerID: vC18B32(uint64(900 + r.Intn(50))), OffchainPublicKey: vC18B32(uint64(7900 + r.Intn(50)))}
+		}
+	case "offchain":
+		a.DynamicConfig.OffchainConfig = cciptypes.Bytes{byte(r.Range(10, 40))}
+	case "candidate": // only the candidate digest moves
+		out.CandidateConfig.ConfigDigest = vC18B32(uint64(vPick(r, []int{0, 4, 5})))
+	default: // identical
+	}
+	return out
+}
+
 func (g *vC18Gen) history(cls string) []vC18Ev {
 	r := g.r
 	var evs []vC18Ev
@@ -262,6 +322,25 @@ func (g *vC18Gen) history(cls string) []vC18Ev {
 	start := vC18Ev{kind: "start"}
 	closeEv := vC18Ev{kind: "close"}
 	switch cls {
+	case "delta":
+		// successive SUCCESSFUL polls that differ in exactly one aspect, every getter read for every digest after every poll
+		evs = append(evs, start)
+		cur := GetAllConfigsResponse{ActiveConfig: g.vconfig(uint64(r.Range(1, 3)), false, false), CandidateConfig: g.vconfig(uint64(vPick(r, []int{0, 4})), false, false)}
+		for len(cur.ActiveConfig.StaticConfig.Nodes) < 2 || len(cur.ActiveConfig.DynamicConfig.SourceChains) < 2 {
+			cur.ActiveConfig = g.vconfig(uint64(r.Range(1, 3)), false, false)
+		}
+		for i := range cur.ActiveConfig.DynamicConfig.SourceChains { // valid bitmaps, so that observer sets are non-trivial
+			cur.ActiveConfig.DynamicConfig.SourceChains[i].ObserverNodesBitmap = g.bitmap(len(cur.ActiveConfig.StaticConfig.Nodes), 0)
+		}
+		evs = append(evs, vC18Ev{kind: "poll", ans: vC18Answer{resp: cur}}, g.read())
+		aspects := []string{"bitmap", "bitmap", "f", "chainset", "order", "node", "offchain", "candidate", "same"}
+		for k := r.Range(3, 7); k > 0; k-- {
+			cur = g.variant(cur, vPick(r, aspects))
+			evs = append(evs, vC18Ev{kind: "poll", ans: vC18Answer{resp: cur}}, g.read())
+			if r.Chance(1, 6) {
+				evs = append(evs, g.pollFail(), g.read())
+			}
+		}
 	case "mixed":
 		add(start)
 		for k := r.Range(3, 14); k > 0; k-- {
@@ -509,7 +588,7 @@ func TestVerif_C18_rmn_seq(t *testing.T) {
 	sink := vOpenSink("C18_rmn_seq")
 	defer sink.Close()
 	g := &vC18Gen{r: r, off: vNewIntern()}
-	classes := []string{"mixed", "mixed", "health", "health", "lifecycle"}
+	classes := []string{"mixed", "delta", "health", "delta", "lifecycle"}
 	for i := 0; i < n; i++ {
 		cls := classes[i%len(classes)]
 		evs := g.history(cls)
